@@ -223,6 +223,7 @@ fn run_program(seed: u64, hid: u64, maxops: usize) {
                 && (b == *s.as_str()) && (b.as_str() == s.as_str()) && (b == *other) == (s == other)
                 && b.as_str().cmp(other) == s.as_str().cmp(other)
                 && format!("{}", b) == format!("{}", s) && format!("{:?}", b) == format!("{:?}", s)
+                && format!("{:>12}|{:*<9}|{:^7.2}|{:.3}|{:10?}|{:#?}", b, b, b, b, b, b) == format!("{:>12}|{:*<9}|{:^7.2}|{:.3}|{:10?}|{:#?}", s, s, s, s, s, s)
                 && b.len() == s.len() && b.is_empty() == s.is_empty()
                 && b.chars().rev().collect::<Vec<char>>() == s.chars().rev().collect::<Vec<char>>()
                 && b.char_indices().collect::<Vec<_>>() == s.char_indices().collect::<Vec<_>>()
